@@ -732,9 +732,20 @@ def check_accounting(ctx: Ctx) -> None:
                    "short previous line it may be merged into" + detail, where(sw, c))
     # inside the fill loop: fit test and reset
     flow = prog.flow(wl)
-    fits = [n for n in flow.cfg.nodes if n.kind == "test" and isinstance(n.ast, ast.Compare) and isinstance(n.ast.ops[0], (ast.LtE, ast.Lt))
-            and "width" in norm(n.ast.comparators[0])]
-    ctx.require("R-ACCT", "fit test in the fill loop", len(fits), 1)
+    def is_fit(e: ast.AST) -> bool:
+        return isinstance(e, ast.Compare) and len(e.ops) == 1 and isinstance(e.ops[0], (ast.LtE, ast.Lt)) and "width" in norm(e.comparators[0])
+
+    fit_nodes = [n for n in flow.cfg.nodes if n.kind == "test" and any(is_fit(x) for x in ast.walk(n.ast))]
+    ctx.require("R-ACCT", "fit test in the fill loop", len(fit_nodes), 1)
+    fits = []
+    for n in fit_nodes:
+        alone = is_fit(n.ast)
+        ctx.ob("R-ACCT", f"{wl.qual} :: the fit test alone decides where a word goes", alone,
+               "a word stays on the current line exactly when column + word + space <= width; the condition is "
+               f"`{norm(n.ast)[:90]}` - an extra alternative keeps words that do not fit (the line is no longer within the width / maximal), "
+               "an extra conjunct breaks lines that are not full", where(wl, n))
+        if alone:
+            fits.append(n)
     for t in fits:
         sl = prog.slice(wl, t.ast.left, t)
         names = {x.id for x in ast.walk(t.ast.left) if isinstance(x, ast.Name)}
